@@ -1,4 +1,7 @@
 import LinOp.C04.Proofs
+import LinOp.C04.ProofsSelect
+import LinOp.C04.ProofsCG
+import LinOp.C04.ProofsKronN2
 import LinOp.C04.Expected
 /-!
 C04 — `solve` returns `A⁻¹B` (resp. `L A⁻¹ B`) whichever algorithm the library selects.  Property theorems only.
@@ -41,11 +44,12 @@ theorem default_selection (n : Nat) :
 
 /-! ### Selection never changes the answer -/
 
-/-- **solve_any_branch.**  Whatever `(class tag, n, settings)` select, the value returned is `A⁻¹ B`, provided the
+/-- **solve_selection_contract** (the three-way form; `solve_any_branch` below is the per-class, per-algorithm form).
+Whatever `(class tag, n, settings)` select, the value returned is `A⁻¹ B`, provided the
 primitive of the branch taken meets its contract: the class's own structured solve returns a solution of
 `A X = B` (discharged per class by the theorems below), the Cholesky oracle returns `L` with `L Lᵀ = A`
 (lower; `cholSolve_upper` is the mirror image), the iterative solver returns a solution (CG's contract — C08). -/
-theorem solve_any_branch {ι κ : Type} [Fintype ι] [DecidableEq ι] [Fintype κ] [DecidableEq κ]
+theorem solve_selection_contract {ι κ : Type} [Fintype ι] [DecidableEq ι] [Fintype κ] [DecidableEq κ]
     (cholOrTri : Bool) (n : Nat) (s : Settings) (A L : Matrix ι ι α) (B Xs Xc : Matrix ι κ α)
     (hA : IsUnit A.det)
     (hstruct : selectSolve cholOrTri n s = .structured → A * Xs = B)
@@ -224,6 +228,232 @@ theorem previous_cholInverse_counterexample :
     fun i _ => if i = 1 then 1 else 0, ?_, ?_⟩
   · funext i j; fin_cases i <;> fin_cases j <;> decide +kernel
   · decide +kernel
+
+
+/-! ### The decision function and every algorithm it can select (update 4) -/
+
+/-- **solve_any_branch** (strengthened).  `methodOf` is the total decision function mirrored from the code
+(`solveMethod = methodOf .solve`): entry point × operator class × size × settings × cache state ↦ algorithm.  For EVERY
+combination, if the selected algorithm — the modelled computation (`triSolve`, `cholSolve`, `diagSolve`, `kronLoop2`,
+`kpadloConstSolve2`, `kpadloKronConstSolve2`, `kpadloSymmSolve2`, `sumKronSolve2`, `woodbury`, Cholesky fresh / cached / from a cached
+triangular root, CG) fed with primitive outputs that meet their contracts (`Runs`) — returns `X` for the operator with dense
+matrix `A` and right-hand side `B`, then `X = A⁻¹ B`. -/
+theorem solve_any_branch (e : Entry) (cls : OpClass) (n : Nat) (s : Settings) (cache : CacheState)
+    {N c : Nat} (A : Matrix (Fin N) (Fin N) α) (B X : Matrix (Fin N) (Fin c) α) (hA : IsUnit A.det)
+    (hrun : Runs (methodOf e cls n s cache) N c A B X) : X = A⁻¹ * B := hrun.correct hA
+
+/-- … with a left factor: `Solve.forward` concatenates `[Lᵀ | R]`, runs the selected algorithm ONCE on it, slices the last `p`
+columns and multiplies by `L`; the result is `L A⁻¹ R` for every combination. -/
+theorem solve_any_branch_left (e : Entry) (cls : OpClass) (n : Nat) (s : Settings) (cache : CacheState)
+    {N o p : Nat} (A : Matrix (Fin N) (Fin N) α) (L : Matrix (Fin o) (Fin N) α) (R : Matrix (Fin N) (Fin p) α)
+    (X : Matrix (Fin N) (Fin (o + p)) α) (hA : IsUnit A.det)
+    (hrun : Runs (methodOf e cls n s cache) N (o + p) A (catLR L R) X) : L * sliceR X = L * A⁻¹ * R := by
+  rw [hrun.correct hA, slice_solve, Matrix.mul_assoc]
+
+/-- The decision function is defined (never `unmodelled`) for every class, size, settings and cache state on the `solve` and
+`inv_quad` entry points, and on `inv_quad_logdet` for the classes that inherit the base implementation. -/
+theorem solveMethod_total (cls : OpClass) (n : Nat) (s : Settings) (c : CacheState) :
+    solveMethod cls n s c ≠ .unmodelled ∧ methodOf .invQuad cls n s c ≠ .unmodelled ∧
+    (cls.baseInvQuadLogdet = true → methodOf .invQuadLogdet cls n s c ≠ .unmodelled) := by
+  refine ⟨methodOf_solve_modelled cls n s c, methodOf_invQuad_modelled cls n s c, fun hb => ?_⟩
+  unfold methodOf
+  simp only [hb, Bool.not_true, Bool.false_eq_true, if_false]
+  split
+  · split
+    · simp
+    · split <;> simp
+  · cases hsel : selectInvQuad n s with
+    | iterative => exact innerSolve_modelled cls n s _
+    | cholesky => simp
+    | structured => simp
+
+/-- **Cached factors.**  `solve` / `inv_quad` rebuild the operator from its representation, so a Cholesky factor or root cached on
+the caller's object never changes their algorithm (only LowRankRootAddedDiag's own `chol_cap_mat` does, and only for `solve`, which
+that class overrides; `inv_quad` sees no cache at all); the base
+`inv_quad_logdet` in its Cholesky branch uses a cached triangular root first, a cached Cholesky factor second, and factorizes
+otherwise — all three are inside `solve_any_branch` (`Runs.cholFromRoot`, `.cholCached`, `.cholFresh`). -/
+theorem cached_factor_branches (cls : OpClass) (n : Nat) (s : Settings) (c : CacheState) :
+    (solveMethod cls n s c = solveMethod cls n s ⟨false, false, c.capChol⟩ ∧
+      methodOf .invQuad cls n s c = methodOf .invQuad cls n s ⟨false, false, false⟩) ∧
+    (cls.baseInvQuadLogdet = true → (s.fastLogProb = false ∨ n ≤ s.maxChol) →
+      methodOf .invQuadLogdet cls n s c
+        = if c.triRoot then .cholFromRoot else if c.chol then .cholCached else .cholFresh) := by
+  refine ⟨⟨?_, ?_⟩, fun hb hsel => ?_⟩
+  · unfold solveMethod methodOf; cases cls <;> simp [ownSolve, innerSolve] <;> split <;> rfl
+  · unfold methodOf; rfl
+  · unfold methodOf
+    have : ((!s.fastLogProb) || decide (n ≤ s.maxChol)) = true := by
+      rcases hsel with h | h <;> simp [h]
+    simp [hb, this]
+
+/-- The decision function agrees with the trace model (`trace`, compared with the library's `verbose_linalg` log on every run):
+`pcg` ⇔ the log is one CG run (preceded by the pivoted-Cholesky event exactly for `pcg true`), `cholFresh` ⇔ the log is the
+Cholesky event. -/
+theorem solveMethod_matches_trace (s : Settings) (n : Nat) :
+    (solveMethod .generic n s ⟨false, false, false⟩ = .pcg false ↔ trace s (.gen n) = [.cg n]) ∧
+    (solveMethod .addedDiag n s ⟨false, false, false⟩ = .pcg true ↔ trace s (.addedDiag n) = [.pivchol n, .cg n]) ∧
+    (solveMethod .addedDiag n s ⟨false, false, false⟩ = .pcg false ↔ trace s (.addedDiag n) = [.cg n]) ∧
+    (solveMethod .generic n s ⟨false, false, false⟩ = .cholFresh ↔ trace s (.gen n) = cholEv n) :=
+  methodOf_trace_consistent s n
+
+/-! ### Eigen-structured solves: full refinement theorems -/
+
+/-- **Eigen-systems are closed under Kronecker products** — on Mathlib's product index and on the row-major flattened index the
+code uses (`KD` = `kronDense`).  The flattened form is again `Fin`-indexed, so iterating it gives the eigen-system of a Kronecker
+product of ANY number of factors (`K₁ ⊗ (K₂ ⊗ (… ⊗ K_m))`): the contract of `KroneckerProductLinearOperator.diagonalization()`
+follows from the contracts of the factors' `eigh`. -/
+theorem eig_kron_closed {n1 n2 : Nat} {K1 Q1 : Matrix (Fin n1) (Fin n1) α} {e1 : Fin n1 → α}
+    {K2 Q2 : Matrix (Fin n2) (Fin n2) α} {e2 : Fin n2 → α} (h1 : IsEig K1 Q1 e1) (h2 : IsEig K2 Q2 e2) :
+    IsEig (KD K1 K2) (KD Q1 Q2) (kronVec e1 e2) ∧
+    IsEig (Matrix.kroneckerMap (· * ·) K1 K2) (Matrix.kroneckerMap (· * ·) Q1 Q2) (fun p => e1 p.1 * e2 p.2) :=
+  ⟨IsEig.kronDense h1 h2, IsEig.kron h1 h2⟩
+
+/-- **kronLoopN_refines** (any number of Kronecker factors): the loop of `KroneckerProductLinearOperator._solve` / `_matmul` —
+for each factor `reshape(n, -1)`, apply the factor (solve), `reshape(n, R/n, c).permute(1, 0, 2)` — run on the flat row-major
+buffer (`kronLoopN`, the function the driver executes against `_solve` of 2-, 3- and 4-factor operators) returns
+`(M_1 ⊗ … ⊗ M_N) · rhs` entry by entry, for every list of factors, all sizes and any number of columns.  Proof: induction over
+the factor list with the layout invariant `(remaining multi-index, rotated earlier indices, column)`. -/
+theorem kronLoopN_refines {β : Type} [CommRing β] (c : Nat) (L : List (Nat × (Nat → Nat → β))) (y : Array β) (p k : Nat)
+    (hp : p < prodSizes L) (hk : k < c) :
+    (kronLoopN (prodSizes L) c L y).getD (p * c + k) 0
+      = ∑ q ∈ Finset.range (prodSizes L), kronEntryN L p q * y.getD (q * c + k) 0 :=
+  kronLoopN_spec c L y p k hp hk
+
+/-- mixed-product property on flat indices, any number of factors: `(⊗ A_i)(⊗ B_i) = ⊗ (A_i B_i)` — with `B_i` the factor
+solves (`A_i B_i = I`) the loop output solves the Kronecker system. -/
+theorem kronEntryN_mixed_product {β : Type} [CommRing β] (A B : List (Nat × (Nat → Nat → β))) (h : SameSizes A B)
+    (p r : Nat) (hp : p < prodSizes A) :
+    ∑ q ∈ Finset.range (prodSizes A), kronEntryN A p q * kronEntryN B q r = kronEntryN (listMul A B) p r :=
+  kronEntryN_mul A B h p r hp
+
+/-- **kronLoopN_solve_refines** (any number of Kronecker factors): fed with the factor solves `B_i` (`A_i B_i = I` on the factor's
+index range — the contract of each factor's `solve`), the loop output `X` satisfies `(A_1 ⊗ … ⊗ A_N) X = rhs` entry by entry; together
+with invertibility this is `X = (⊗A_i)⁻¹ rhs`. -/
+theorem kronLoopN_solve_refines {β : Type} [CommRing β] (c : Nat) (A B : List (Nat × (Nat → Nat → β))) (hs : SameSizes A B)
+    (hf : FactorInv A B) (y : Array β) (p k : Nat) (hp : p < prodSizes A) (hk : k < c) :
+    ∑ q ∈ Finset.range (prodSizes A), kronEntryN A p q * (kronLoopN (prodSizes A) c B y).getD (q * c + k) 0
+      = y.getD (p * c + k) 0 :=
+  kronLoopN_solves' c A B hs hf y p k hp hk
+
+example : SameSizes [((1 : Nat), fun _ _ => (2 : Rat))] [(1, fun _ _ => 1 / 2)] ∧
+    FactorInv [((1 : Nat), fun _ _ => (2 : Rat))] [(1, fun _ _ => 1 / 2)] := by
+  refine ⟨⟨rfl, trivial⟩, ⟨fun i k hi hk => ?_, trivial⟩⟩
+  have h1 : i = 0 := by omega
+  have h2 : k = 0 := by omega
+  subst h1 h2
+  norm_num
+
+/-- **kpadlo_constDiag_solve_refines**: the modelled constant-diagonal branch of `KroneckerProductAddedDiagLinearOperator._solve`
+(Kronecker matmul loops, `(Λ₁⊗Λ₂ + c)^{-1/2}` applied twice) equals `(K₁⊗K₂ + cI)⁻¹ rhs`, given the contracts of `eigh` per factor and of
+`sqrt` at the shifted eigenvalues; all factor sizes, any number of columns. -/
+theorem kpadlo_constDiag_solve_refines {n1 n2 c : Nat} (sq : α → α) {K1 : Matrix (Fin n1) (Fin n1) α} {Q1 : Mat α n1 n1}
+    {e1 : Fin n1 → α} {K2 : Matrix (Fin n2) (Fin n2) α} {Q2 : Mat α n2 n2} {e2 : Fin n2 → α}
+    (h1 : IsEig K1 (Matrix.of Q1) e1) (h2 : IsEig K2 (Matrix.of Q2) e2) (cst : α)
+    (hsq : ∀ p, sq (kronVec e1 e2 p + cst) * sq (kronVec e1 e2 p + cst) = kronVec e1 e2 p + cst)
+    (hpos : ∀ p, kronVec e1 e2 p + cst ≠ 0) (rhs : Mat α (n1 * n2) c) :
+    (Matrix.of (kpadloConstSolve2 sq Q1 Q2 e1 e2 cst rhs) : Matrix _ _ α)
+      = (KD K1 K2 + cst • (1 : Matrix _ _ α))⁻¹ * Matrix.of rhs :=
+  kpadloConstSolve2_refines sq h1 h2 cst hsq hpos rhs
+
+/-- **kpadlo_kronConst_solve_refines**: diagonal `(d₁I) ⊗ (d₂I)` (`_constant_kpadlt_constructor`). -/
+theorem kpadlo_kronConst_solve_refines {n1 n2 c : Nat} {K1 : Matrix (Fin n1) (Fin n1) α} {Q1 : Mat α n1 n1} {e1 : Fin n1 → α}
+    {K2 : Matrix (Fin n2) (Fin n2) α} {Q2 : Mat α n2 n2} {e2 : Fin n2 → α}
+    (h1 : IsEig K1 (Matrix.of Q1) e1) (h2 : IsEig K2 (Matrix.of Q2) e2) (d1 d2 : α)
+    (hd1 : d1 ≠ 0) (hd2 : d2 ≠ 0) (hne : ∀ p, kronVec e1 e2 p / (d1 * d2) + 1 ≠ 0) (rhs : Mat α (n1 * n2) c) :
+    (Matrix.of (kpadloKronConstSolve2 Q1 Q2 e1 e2 d1 d2 rhs) : Matrix _ _ α)
+      = (KD K1 K2 + KD (diagonal fun _ => d1) (diagonal fun _ => d2))⁻¹ * Matrix.of rhs :=
+  kpadloKronConstSolve2_refines h1 h2 d1 d2 hd1 hd2 hne rhs
+
+/-- **kpadlo_symmetrised_solve_refines**: diagonal `D₁ ⊗ D₂` with arbitrary non-zero diagonals (`_symmetrize_kpadlt_constructor`):
+`S Q̃ (Λ̃+1)⁻¹ Q̃ᵀ S rhs = (K₁⊗K₂ + D₁⊗D₂)⁻¹ rhs` with `S = ⊗ D_i^{-1/2}` and `(Q̃_i, Λ̃_i)` the eigen-system of `S_i K_i S_i`. -/
+theorem kpadlo_symmetrised_solve_refines {n1 n2 c : Nat} (sq : α → α) (K1 : Matrix (Fin n1) (Fin n1) α) (Q1 : Mat α n1 n1)
+    (e1 d1 : Fin n1 → α) (K2 : Matrix (Fin n2) (Fin n2) α) (Q2 : Mat α n2 n2) (e2 d2 : Fin n2 → α)
+    (hsq1 : ∀ i, sq (d1 i) * sq (d1 i) = d1 i) (hsq2 : ∀ j, sq (d2 j) * sq (d2 j) = d2 j)
+    (hd1 : ∀ i, d1 i ≠ 0) (hd2 : ∀ j, d2 j ≠ 0)
+    (h1 : IsEig (diagonal (fun i => 1 / sq (d1 i)) * K1 * diagonal (fun i => 1 / sq (d1 i))) (Matrix.of Q1) e1)
+    (h2 : IsEig (diagonal (fun j => 1 / sq (d2 j)) * K2 * diagonal (fun j => 1 / sq (d2 j))) (Matrix.of Q2) e2)
+    (hne : ∀ p, kronVec e1 e2 p + 1 ≠ 0) (rhs : Mat α (n1 * n2) c) :
+    (Matrix.of (kpadloSymmSolve2 sq Q1 Q2 e1 e2 d1 d2 rhs) : Matrix _ _ α)
+      = (KD K1 K2 + KD (diagonal d1) (diagonal d2))⁻¹ * Matrix.of rhs :=
+  kpadloSymmSolve2_refines sq K1 Q1 e1 d1 K2 Q2 e2 d2 hsq1 hsq2 hd1 hd2 h1 h2 hne rhs
+
+/-- **sumKron_solve_refines**: `SumKroneckerLinearOperator._solve` — `R (⊗(R_iᵀ A_i R_i) + I)⁻¹ Rᵀ rhs = (A₁⊗A₂ + C₁⊗C₂)⁻¹ rhs` given
+`R_i R_iᵀ = C_i⁻¹` (contract of `root_inv_decomposition`) and an inner solve that returns the inner solution (discharged by
+`kpadlo_constDiag_solve_refines` with `c = 1`, or by the Cholesky branch). -/
+theorem sumKron_solve_refines {n1 n2 c : Nat} (A1 C1 : Matrix (Fin n1) (Fin n1) α) (R1 : Mat α n1 n1)
+    (A2 C2 : Matrix (Fin n2) (Fin n2) α) (R2 : Mat α n2 n2) (hC1 : IsUnit C1.det) (hC2 : IsUnit C2.det)
+    (hR1 : Matrix.of R1 * (Matrix.of R1)ᵀ = C1⁻¹) (hR2 : Matrix.of R2 * (Matrix.of R2)ᵀ = C2⁻¹)
+    (innerSolve : Mat α (n1 * n2) c → Mat α (n1 * n2) c)
+    (hinner : ∀ X, (Matrix.of (innerSolve X) : Matrix _ _ α)
+      = (KD ((Matrix.of R1)ᵀ * A1 * Matrix.of R1) ((Matrix.of R2)ᵀ * A2 * Matrix.of R2) + 1)⁻¹ * Matrix.of X)
+    (rhs : Mat α (n1 * n2) c) :
+    (Matrix.of (sumKronSolve2 R1 R2 innerSolve rhs) : Matrix _ _ α) = (KD A1 A2 + KD C1 C2)⁻¹ * Matrix.of rhs :=
+  sumKronSolve2_refines A1 C1 R1 A2 C2 R2 hC1 hC2 hR1 hR2 innerSolve hinner rhs
+
+/-- **batchRepeat_solve_refines**: `BatchRepeatLinearOperator._cholesky_solve` (repeats moved into columns, base solve, moved back)
+solves member `p = rep·b + bi` of the repeated batch with base member `bi`, for every repeat count, base batch size, size and
+number of columns. -/
+theorem batchRepeat_solve_refines {r b n c : Nat} (A : Fin b → Matrix (Fin n) (Fin n) α)
+    (X : Fin (r * b) → Mat α n c) (p : Fin (r * b)) :
+    (Matrix.of (batchRepeatSolve (fun bi => ((A bi)⁻¹ : Matrix _ _ α)) X p) : Matrix _ _ α)
+      = (A (sndIdx p))⁻¹ * Matrix.of (X p) := batchRepeatSolve_refines A X p
+
+/-- `CholLinearOperator.inv_quad` (one substitution, then squares): `(L⁻¹B)ᵀ(L⁻¹B) = Bᵀ (L Lᵀ)⁻¹ B`. -/
+theorem cholHalf_inv_quad {ι κ : Type} [Fintype ι] [DecidableEq ι] [Fintype κ] [DecidableEq κ] (L : Matrix ι ι α)
+    (B : Matrix ι κ α) : (L⁻¹ * B)ᵀ * (L⁻¹ * B) = Bᵀ * ((L * Lᵀ)⁻¹ * B) := by
+  rw [Matrix.transpose_mul, Matrix.mul_inv_rev, Matrix.transpose_nonsing_inv]
+  simp only [Matrix.mul_assoc]
+
+/-! ### The iterative branch: composition with C08 (imported theorems) -/
+
+/-- **cg_branch_exact** (C08 `exact_at_n` composed with the matrix closures of `LinearOperator._solve`): preconditioned CG on a
+symmetric positive definite `A` with a symmetric preconditioner `W` returns `A⁻¹ b̂` after `n` regular steps — the hypothesis
+`A X = B` of the `pcg` case of `solve_any_branch`, in exact arithmetic. -/
+theorem cg_branch_exact_solution {n : Nat} {N : C08.NumOps ℝ} (hN : C08.Lawful N) (P : C08.Params ℝ) (he : 0 < P.eps)
+    (hp : P.precond = true) (A W : Matrix (Fin n) (Fin n) ℝ) (hAs : Aᵀ = A)
+    (hApd : ∀ v : C08.Vec ℝ n, v ≠ 0 → 0 < C08.dot v (A.mulVec v)) (hWs : Wᵀ = W) (b x0 : C08.Vec ℝ n)
+    (hreg : ∀ j < n, C08.Regular P (matSys A W b x0) (C08.traj N P (matSys A W b x0) j)) :
+    (C08.traj N P (matSys A W b x0) n).x = (A⁻¹).mulVec (C08.prep N P (matSys A W b x0)).b :=
+  cg_branch_exact hN P he hp A W hAs hApd hWs b x0 hreg
+
+/-- **cg_branch_within_bound** (C08 `chebyshev_rate_pre` composed): preconditioned CG on `A` with the pivoted-Cholesky
+preconditioner `W = (L_k L_kᵀ + D)⁻¹` (symmetric positive definite by `pivchol_preconditioner_spd`) approaches `A⁻¹ b̂` within the C08
+bound `2 ((√κ−1)/(√κ+1))^j` in the `A`-norm, `κ = lmax/lmin` the condition number of the preconditioned operator. -/
+theorem cg_branch_within_bound {n : Nat} {N : C08.NumOps ℝ} (hN : C08.Lawful N) (P : C08.Params ℝ) (he : 0 < P.eps)
+    (hp : P.precond = true) (A W : Matrix (Fin n) (Fin n) ℝ) (hAs : Aᵀ = A)
+    (hApd : ∀ v : C08.Vec ℝ n, v ≠ 0 → 0 < C08.dot v (A.mulVec v))
+    (hWs : Wᵀ = W) (hWpd : ∀ v : C08.Vec ℝ n, v ≠ 0 → 0 < C08.dot v (W.mulVec v)) (b x0 : C08.Vec ℝ n)
+    (lmin lmax : ℝ) (hpos : 0 < lmin) (hle : lmin ≤ lmax)
+    (hlo : ∀ y : C08.Vec ℝ n, lmin * C08.dot y (W.mulVec y) ≤ C08.dot (W.mulVec y) (A.mulVec (W.mulVec y)))
+    (hhi : ∀ y : C08.Vec ℝ n, C08.dot (W.mulVec y) (A.mulVec (W.mulVec y)) ≤ lmax * C08.dot y (W.mulVec y))
+    (j : Nat) (hreg : ∀ i < j, C08.Regular P (matSys A W b x0) (C08.traj N P (matSys A W b x0) i)) :
+    Real.sqrt (C08.errA (matSys A W b x0) ((A⁻¹).mulVec (C08.prep N P (matSys A W b x0)).b)
+        (C08.traj N P (matSys A W b x0) j).x)
+      ≤ 2 * C08.rho lmin lmax ^ j
+        * Real.sqrt (C08.errA (matSys A W b x0) ((A⁻¹).mulVec (C08.prep N P (matSys A W b x0)).b)
+            (C08.traj N P (matSys A W b x0) 0).x) :=
+  cg_branch_rate hN P he hp A W hAs hApd hWs hWpd b x0 lmin lmax hpos hle hlo hhi j hreg
+
+/-- The pivoted-Cholesky preconditioner of `AddedDiagLinearOperator` meets the hypotheses of `cg_branch_within_bound`:
+`(L Lᵀ + diag d)⁻¹` with `d > 0` is symmetric positive definite, for every `n × k` factor `L`. -/
+theorem pivchol_preconditioner_spd {n k : Nat} (L : Matrix (Fin n) (Fin k) ℝ) (d : Fin n → ℝ) (hd : ∀ i, 0 < d i) :
+    ((L * Lᵀ + diagonal d)⁻¹)ᵀ = (L * Lᵀ + diagonal d)⁻¹ ∧
+    ∀ v : C08.Vec ℝ n, v ≠ 0 → 0 < C08.dot v (((L * Lᵀ + diagonal d)⁻¹).mulVec v) :=
+  inv_spd _ (lowrank_plus_diag_spd L d hd).1 (lowrank_plus_diag_spd L d hd).2
+
+/-- hypotheses are satisfiable: every diagonal matrix has the eigen-system `(1, diag)`, so `Runs .eigConst …` etc. are inhabited
+for all factor sizes; `Runs` itself is inhabited for a 2×2 diagonal solve. -/
+example {n : Nat} (e : Fin n → α) : IsEig (diagonal e) (1 : Matrix (Fin n) (Fin n) α) e :=
+  ⟨by simp, by simp, by simp⟩
+
+example : Runs (methodOf .solve .diag 2 defaultSettings ⟨false, false, false⟩) 2 1
+    (diagonal (fun _ : Fin 2 => (2 : Rat))) (Matrix.of fun _ _ => 1) (Matrix.of (LinOp.C04.diagSolve (fun _ => 2) fun _ _ => 1)) :=
+  Runs.diagDiv _ (fun _ => by norm_num) _
+
+example : solveMethod .kpadloConst 6 ⟨0, true, true, 15, 2000⟩ ⟨false, false, false⟩ = .eigConst ∧
+    solveMethod .sumKron 6 ⟨800, true, true, 15, 2000⟩ ⟨true, false, false⟩ = .cholFresh ∧
+    methodOf .invQuadLogdet .generic 6 ⟨800, true, true, 15, 2000⟩ ⟨true, false, false⟩ = .cholCached ∧
+    solveMethod .lrrad 6 ⟨800, true, true, 15, 2000⟩ ⟨false, false, true⟩ = .woodbury true := by decide
 
 /-- The hypotheses of the theorems above are satisfiable by non-trivial instances. -/
 example : IsLower (fun i j : Fin 2 => if j ≤ i then (1 : Rat) else 0) := by
